@@ -860,3 +860,6 @@ def sterile(chk, repo):
            "tail after the append", ok, ap,
            why or "the working counter is the last two bytes of the "
            "datagram")
+
+# added rules (appended to the explanation the evidence file carries)
+EXPLANATION += (" " + 'Added during the build (DESIGN.md 4.31, second table): sterile() by abstract execution on packets built through append / append_writer (two ethertypes, a writer that does not fit); who-may-append rule: write commands enter sync-group packets through append_writer only; frames with equal datagrams.')
